@@ -60,6 +60,10 @@ def build_scenario_parts(rng, nvars, opes=False, script=False, errors=False):
     # per-step loop over biases, on a 100 x 100 grid)
     biases += "metadynamics {\n  name m2\n  colvars v1 v2\n  hillWeight 0.2\n  newHillFrequency 1\n  gridsUpdateFrequency 1000\n  hillWidth 3.0\n}\n"
     biases += "histogram {\n  name hist\n  colvars v2\n}\n"
+    # one adaptive linear bias on two variables: it draws random numbers to choose which coupling constant to update; it is
+    # the only consumer of the generator, so the numbers it sees must not depend on the thread that happens to run it
+    biases += "alb {\n  name al\n  colvars v2 v3\n  centers %s %s\n  updateFrequency 4\n  forceRange 1.0 2.0\n  rateMax 0.5 0.5\n}\n" % (
+        fnum(rng.uniform(-3, 3)), fnum(rng.uniform(-3, 3)))
     biases += "harmonicWalls {\n  name w1\n  colvars v3\n  lowerWalls -1.0\n  upperWalls 1.0\n  forceConstant 2.0\n}\n"
     if not opes and not script:
         # two two-dimensional ABF biases with projected ABF: each integrates its free-energy surface (conjugate gradient on
